@@ -75,7 +75,27 @@ def shape_of(fn) -> dict:
         if isinstance(n, ast.For):
             loops += 1
     ifs = sum(1 for n in ast.walk(fn) if isinstance(n, ast.If))
-    return {'locals': sorted(names), 'for_loops': loops, 'if_stmts': ifs}
+    return {'locals': sorted(names), 'for_loops': loops, 'if_stmts': ifs, 'comp_targets': sorted(_comp_targets(fn))}
+
+
+def _comp_targets(fn) -> set:
+    """Names bound directly to a comprehension (and '<return>' when a comprehension / any() / all() / wrapped generator is returned) in today's shape."""
+    out = set()
+    for n in ast.walk(fn):
+        v = None
+        if isinstance(n, ast.Assign) and len(n.targets) == 1 and isinstance(n.targets[0], ast.Name):
+            t, v = n.targets[0].id, n.value
+        elif isinstance(n, ast.AnnAssign) and isinstance(n.target, ast.Name) and n.value is not None:
+            t, v = n.target.id, n.value
+        elif isinstance(n, ast.Return) and n.value is not None:
+            t, v = '<return>', n.value
+        if v is None:
+            continue
+        if isinstance(v, ast.Call) and isinstance(v.func, ast.Name) and len(v.args) == 1 and not v.keywords:
+            v = v.args[0]
+        if isinstance(v, (ast.ListComp, ast.SetComp, ast.DictComp, ast.GeneratorExp)):
+            out.add(t)
+    return out
 
 
 def enabled() -> bool:
@@ -583,6 +603,57 @@ def _propagate_pure(fn, known_locals: set) -> int:
     return count
 
 
+def _fuse_collect_then_loop(owner: ast.AST, known_locals: set) -> int:
+    """`xs = [v for v in IT if C]` (a NEW local) immediately followed by `for v in xs: BODY`, xs used nowhere else, and BODY touching nothing that C reads:
+    the two-phase form of `for v in list(IT): if C: BODY`."""
+    count = 0
+    for field in ('body', 'orelse', 'finalbody'):
+        block = getattr(owner, field, None)
+        if not (isinstance(block, list) and block and isinstance(block[0], ast.stmt)):
+            continue
+        i = 0
+        while i < len(block) - 1:
+            s, nxt = block[i], block[i + 1]
+            if isinstance(s, ast.Assign) and len(s.targets) == 1 and isinstance(s.targets[0], ast.Name) and s.targets[0].id not in known_locals \
+                    and isinstance(s.value, ast.ListComp) and len(s.value.generators) == 1 and isinstance(s.value.elt, ast.Name) \
+                    and isinstance(s.value.generators[0].target, ast.Name) and s.value.elt.id == s.value.generators[0].target.id \
+                    and isinstance(nxt, ast.For) and isinstance(nxt.iter, ast.Name) and nxt.iter.id == s.targets[0].id and isinstance(nxt.target, ast.Name) and not nxt.orelse:
+                xs = s.targets[0].id
+                gen = s.value.generators[0]
+                uses = sum(1 for n in ast.walk(owner) if isinstance(n, ast.Name) and n.id == xs)
+                reads = set().union(*[_names(c) for c in gen.ifs]) if gen.ifs else set()
+                touched = set()
+                for b in nxt.body:
+                    for n in ast.walk(b):
+                        if isinstance(n, ast.Name) and isinstance(n.ctx, (ast.Store, ast.Del)):
+                            touched.add(n.id)
+                        if isinstance(n, (ast.Subscript, ast.Attribute)) and isinstance(n.ctx, (ast.Store, ast.Del)):
+                            r = n
+                            while isinstance(r, (ast.Subscript, ast.Attribute)):
+                                r = r.value
+                            if isinstance(r, ast.Name):
+                                touched.add(r.id)
+                        if isinstance(n, ast.Call):
+                            touched.add('<call>')
+                if uses == 2 and not (reads & touched) and '<call>' not in touched and not _has(s.value, ast.Await) and gen.ifs:
+                    ren = _Subst({gen.target.id: nxt.target.id}) if gen.target.id != nxt.target.id else None
+                    conds = [ren.visit(copy.deepcopy(c)) if ren else c for c in gen.ifs]
+                    test = conds[0] if len(conds) == 1 else ast.BoolOp(op=ast.And(), values=conds)
+                    it = ast.Call(func=ast.Name(id='list', ctx=ast.Load()), args=[gen.iter], keywords=[])
+                    fused = ast.For(target=nxt.target, iter=it, body=[ast.copy_location(ast.If(test=test, body=nxt.body, orelse=[]), nxt)], orelse=[], type_comment=None)
+                    block[i:i + 2] = [ast.copy_location(fused, nxt)]
+                    ast.fix_missing_locations(block[i])
+                    count += 1
+                    continue
+            i += 1
+        for st in block:
+            if not isinstance(st, (ast.FunctionDef, ast.AsyncFunctionDef, ast.ClassDef)):
+                count += _fuse_collect_then_loop(st, known_locals)
+    for h in getattr(owner, 'handlers', []) or []:
+        count += _fuse_collect_then_loop(h, known_locals)
+    return count
+
+
 def _evaluated_first(exprs: list, use: ast.Name, val: ast.AST) -> bool:
     """Substituting `val` at `use` keeps the order of effects: `val` is effect-free (no call), or no call/await is evaluated before `use`
     in the statement and the use is not under a short-circuit / conditional (so it is evaluated exactly once, unconditionally)."""
@@ -854,7 +925,7 @@ def _loop_of(comp_generators: list, innermost: list, at: ast.AST) -> ast.stmt:
     return body[0]
 
 
-def _unfold_stmt(s: ast.stmt) -> Optional[list]:
+def _unfold_stmt(s: ast.stmt, keep: frozenset = frozenset()) -> Optional[list]:
     """`return any/all(<genexp>)`, `x = [<listcomp>]`, `x = {<dictcomp>}`, `x = {<setcomp>}`, `return [<listcomp>]` as explicit loops (the inverse of
     COLLECT): applied only in functions that had a loop in the inventory and have fewer loops now."""
     def gens_ok(c) -> bool:
@@ -865,6 +936,12 @@ def _unfold_stmt(s: ast.stmt) -> Optional[list]:
 
     def load(name: str) -> ast.Name:
         return ast.Name(id=name, ctx=ast.Load())
+    if isinstance(s, ast.Return) and '<return>' in keep:
+        return None
+    if isinstance(s, (ast.Assign, ast.AnnAssign)):
+        t0 = s.targets[0] if isinstance(s, ast.Assign) and len(s.targets) == 1 else getattr(s, 'target', None)
+        if isinstance(t0, ast.Name) and t0.id in keep:
+            return None           # bound to a comprehension in today's tree already: the rules know it in that shape
     if isinstance(s, ast.Return) and isinstance(s.value, ast.Call) and isinstance(s.value.func, ast.Name) and s.value.func.id in ('any', 'all') \
             and len(s.value.args) == 1 and not s.value.keywords and isinstance(s.value.args[0], (ast.GeneratorExp, ast.ListComp)) and gens_ok(s.value.args[0]):
         comp = s.value.args[0]
@@ -911,26 +988,26 @@ def _unfold_stmt(s: ast.stmt) -> Optional[list]:
     return out
 
 
-def _unfold_comprehensions(owner: ast.AST) -> int:
+def _unfold_comprehensions(owner: ast.AST, keep: frozenset = frozenset()) -> int:
     count = 0
     for field in ('body', 'orelse', 'finalbody'):
         block = getattr(owner, field, None)
         if isinstance(block, list) and block and isinstance(block[0], ast.stmt):
             new = []
             for s in block:
-                repl = _unfold_stmt(s)
+                repl = _unfold_stmt(s, keep)
                 if repl is not None:
                     new.extend(repl)
                     count += 1
                 else:
                     new.append(s)
                     if not isinstance(s, (ast.FunctionDef, ast.AsyncFunctionDef, ast.ClassDef)):
-                        count += _unfold_comprehensions(s)
+                        count += _unfold_comprehensions(s, keep)
             setattr(owner, field, new)
     for h in getattr(owner, 'handlers', []) or []:
-        count += _unfold_comprehensions(h)
+        count += _unfold_comprehensions(h, keep)
     for c in getattr(owner, 'cases', []) or []:
-        count += _unfold_comprehensions(c)
+        count += _unfold_comprehensions(c, keep)
     return count
 
 
@@ -948,6 +1025,7 @@ def canonicalise(modname: str, tree: ast.Module) -> dict:
         if sum(1 for n in ast.walk(fn) if isinstance(n, ast.If)) > known.get('if_stmts', 0):
             stats['temps'] += _fold_if_assign(fn)
         stats['temps'] += _propagate_pure(fn, kl)
+        stats['collected'] += _fuse_collect_then_loop(fn, kl)
         for _ in range(4):
             n = _propagate_temps(fn, kl)
             stats['temps'] += n
@@ -955,7 +1033,7 @@ def canonicalise(modname: str, tree: ast.Module) -> dict:
                 break
         now_loops = sum(1 for n in ast.walk(fn) if isinstance(n, ast.For))
         if now_loops < known['for_loops']:
-            nu = _unfold_comprehensions(fn)     # a loop of today's tree was turned into a comprehension
+            nu = _unfold_comprehensions(fn, frozenset(known.get('comp_targets', [])))     # a loop of today's tree was turned into a comprehension
             stats['unfolded'] = stats.get('unfolded', 0) + nu
             if nu:
                 continue                        # do not fold them back
